@@ -32,6 +32,32 @@ class P3(MetaProg):
         self.points.append({"line": line, "tag": tag, "model": m, "data": {k: v.copy() for k, v in self.data.items()}, "what": what,
                             "args": dict(self.cur_args), "fresh": self.fresh})
 
+    def touch_noncontig(self):
+        """every rank reads a strided / single-column selection: the library is left with a non-contiguous file view on its
+        collective file handle (it does not reset the view after an access), which the next header write must not use"""
+        cands = []
+        for vid, v in enumerate(self.m.vars):
+            full = ([self.numrecs] if self.m.is_rec(v) else []) + self.m.shape(v)
+            if not full or min(full) == 0 or int(np.prod(full)) > 4000:
+                continue
+            if full[-1] >= 3 or (len(full) >= 2 and full[-1] == 2 and full[-2] >= 2):
+                cands.append((vid, full))
+        if not cands:
+            return
+        vid, full = self.rng.choice(cands)
+        v = self.m.vars[vid]
+        count, stride = list(full), [1] * len(full)
+        if full[-1] >= 3:
+            stride[-1] = 2
+            count[-1] = (full[-1] + 1) // 2
+        else:
+            count[-1] = 1
+        mt = "text" if v.xtype == cs.NC_CHAR else XT2MEM[v.xtype]
+        n = int(np.prod(count))
+        self.emit("*", "get", Expect(0), f=self.f, v=vid, form="vars", mt=mt, coll=1, start=",".join("0" for _ in full), count=",".join(map(str, count)),
+                  stride=",".join(map(str, stride)), nbytes=n * np.dtype(MEM[mt]).itemsize)
+        self.feat.add(("noncontig-view",))
+
     def write_var(self, vid):
         """every rank writes the whole variable with identical values (deterministic)"""
         v = self.m.vars[vid]
@@ -160,6 +186,8 @@ def gen_case(rng, i, nprocs):
                     p.rename("dim", d, nn)
             p.point("after a data-mode metadata update")
         else:
+            if rng.random() < 0.5:
+                p.touch_noncontig()
             p.redef()
             p.fresh = False
             for _ in range(rng.randint(0, 3)):
